@@ -1,0 +1,214 @@
+//go:build verif
+
+package types
+
+// Contracts for the deductive checker in /verif (comment-only; compiled only with -tags verif).
+// C18 / C03, signing part: MsgEthereumTx.Sign, UnwrapEthereumMsg, NewTx / newMsgEthereumTx.
+// Loaded together with zz_contracts_c18_verif.go (tag c18) and zz_contracts_c18m_verif.go (tag c18m).
+// Lib specs: /verif/specs/c18s/82_sign.spec.
+
+/*@
+// ------------------------------------------------------------------ Ethereum transaction -> message (strengthened; re-verified here)
+// the stored access list mirrors the transaction's one, also when it is empty
+extend func newAccessListTx
+    ensures c18s_accesses_len: result.1 == nil ==> len(result.0.Accesses) == len(tx_al(tx))
+extend func NewDynamicFeeTx
+    ensures c18s_accesses_len: result.1 == nil ==> len(result.0.Accesses) == len(tx_al(tx))
+specfunc AlMirrors(acc github.com/haqq-network/haqq/x/evm/types.AccessList, al AccessListE) bool = len(acc) == len(al)
+        && (forall k int :: 0 <= k && k < len(al) ==> TupleMirrors(acc[k], al[k]))
+extend func NewTxDataFromTx
+    ensures c18s_al_dynamic: result.1 == nil && tx_type(tx) == 2 ==> AlMirrors(unbox(result.0, "*github.com/haqq-network/haqq/x/evm/types.DynamicFeeTx").Accesses, tx_al(tx))
+    ensures c18s_al_accesslist: result.1 == nil && tx_type(tx) == 1 ==> AlMirrors(unbox(result.0, "*github.com/haqq-network/haqq/x/evm/types.AccessListTx").Accesses, tx_al(tx))
+    ensures c18s_nonnil: result.1 == nil && tx_type(tx) == 2 ==> unbox(result.0, "*github.com/haqq-network/haqq/x/evm/types.DynamicFeeTx") != nil
+    ensures c18s_nonnil1: result.1 == nil && tx_type(tx) == 1 ==> unbox(result.0, "*github.com/haqq-network/haqq/x/evm/types.AccessListTx") != nil
+    ensures c18s_nonnil0: result.1 == nil && tx_type(tx) != 1 && tx_type(tx) != 2 ==> unbox(result.0, "*github.com/haqq-network/haqq/x/evm/types.LegacyTx") != nil
+
+// FromEthereumTx: on success the message holds a NEW packed tx data object of the kind of the transaction that mirrors the
+// transaction field by field (the existing contract states the hash and the frame)
+extend func (*MsgEthereumTx).FromEthereumTx
+    let td = unpack_td(msg.Data)
+    ensures c18s_data: result == nil ==> unpack_ok(msg.Data) && fresh(msg.Data)
+    ensures c18s_dynamic: result == nil && tx_type(tx) == 2 ==> IsDynamicFee(td) && fresh(AsDynamicFee(td))
+            && DynamicFeeMirrors(AsDynamicFee(td), tx) && AlMirrors(AsDynamicFee(td).Accesses, tx_al(tx))
+    ensures c18s_accesslist: result == nil && tx_type(tx) == 1 ==> IsAccessList(td) && fresh(AsAccessList(td))
+            && AccessListMirrors(AsAccessList(td), tx) && AlMirrors(AsAccessList(td).Accesses, tx_al(tx))
+    ensures c18s_legacy: result == nil && tx_type(tx) != 1 && tx_type(tx) != 2 ==> IsLegacy(td) && fresh(AsLegacy(td))
+            && LegacyMirrors(AsLegacy(td), tx)
+@*/
+
+/*@
+// ------------------------------------------------------------------ Sign
+func (*MsgEthereumTx).GetFrom
+    requires nonnil: msg != nil
+    ensures empty: msg.From == "" ==> len(result) == 0
+    ensures value: msg.From != "" ==> result == addr_bytes(hex_addr(msg.From))
+
+// stored optional amount after the round trip through an Ethereum transaction: always present, an absent one has become 0
+specfunc Opt0(p *cosmossdk.io/math.Int, n int) bool = p != nil && *p == n
+// hex address string after the round trip: parsed and printed again (EIP-55 checksum form); empty stays empty
+specfunc ToRound(s string) string = ite(s == "", "", addr_hex(hex_addr(s)))
+specfunc TupleRound(t github.com/haqq-network/haqq/x/evm/types.AccessTuple, o github.com/haqq-network/haqq/x/evm/types.AccessTuple) bool =
+        t.Address == addr_hex(hex_addr(o.Address)) && len(t.StorageKeys) == len(o.StorageKeys)
+        && (forall j int :: 0 <= j && j < len(o.StorageKeys) ==> t.StorageKeys[j] == hash_hex(hex_hash(o.StorageKeys[j])))
+specfunc AlRound(a github.com/haqq-network/haqq/x/evm/types.AccessList, o github.com/haqq-network/haqq/x/evm/types.AccessList) bool =
+        len(a) == len(o) && (forall k int :: 0 <= k && k < len(o) ==> TupleRound(a[k], o[k]))
+// the stored tx data q is the stored tx data p signed with (r, s, v): signature values replaced, every other field the same
+// value (up to the normal form of the round trip: absent amounts are 0, addresses / storage keys re-printed)
+specfunc SignedLegacy(q *github.com/haqq-network/haqq/x/evm/types.LegacyTx, p *github.com/haqq-network/haqq/x/evm/types.LegacyTx, r int, s int, v int) bool =
+        q != nil && q.Nonce == p.Nonce && q.GasLimit == p.GasLimit && q.Data == p.Data && q.To == ToRound(p.To)
+        && Opt0(q.Amount, optS(p.Amount)) && Opt0(q.GasPrice, optS(p.GasPrice))
+        && q.R == be_bytes(r) && q.S == be_bytes(s) && q.V == be_bytes(v)
+specfunc SignedAccessList(q *github.com/haqq-network/haqq/x/evm/types.AccessListTx, p *github.com/haqq-network/haqq/x/evm/types.AccessListTx, r int, s int, v int, cid int) bool =
+        q != nil && q.Nonce == p.Nonce && q.GasLimit == p.GasLimit && q.Data == p.Data && q.To == ToRound(p.To)
+        && Opt0(q.Amount, optS(p.Amount)) && Opt0(q.GasPrice, optS(p.GasPrice)) && AlRound(q.Accesses, p.Accesses)
+        && Opt0(q.ChainID, cid) && (optS(p.ChainID) == 0 || optS(p.ChainID) == cid)
+        && q.R == be_bytes(r) && q.S == be_bytes(s) && q.V == be_bytes(v)
+specfunc SignedDynamicFee(q *github.com/haqq-network/haqq/x/evm/types.DynamicFeeTx, p *github.com/haqq-network/haqq/x/evm/types.DynamicFeeTx, r int, s int, v int, cid int) bool =
+        q != nil && q.Nonce == p.Nonce && q.GasLimit == p.GasLimit && q.Data == p.Data && q.To == ToRound(p.To)
+        && Opt0(q.Amount, optS(p.Amount)) && Opt0(q.GasFeeCap, optS(p.GasFeeCap)) && Opt0(q.GasTipCap, optS(p.GasTipCap))
+        && AlRound(q.Accesses, p.Accesses)
+        && Opt0(q.ChainID, cid) && (optS(p.ChainID) == 0 || optS(p.ChainID) == cid)
+        && q.R == be_bytes(r) && q.S == be_bytes(s) && q.V == be_bytes(v)
+
+// Sign: signs, with the keyring key of msg.From, the digest ethSigner.Hash(t0) of the Ethereum transaction t0 the message stands
+// for (AsTransaction()), and replaces the packed tx data by the data of the SIGNED transaction: R = sig[0:32], S = sig[32:64],
+// V = the signer's v value for the recovery id sig[64]; every other stored field keeps its value (typed transactions get the
+// signer's chain id, which SignatureValues only accepts when the stored one was absent / 0 or equal). The recorded hash is the
+// hash of the signed transaction. Errors: From empty, no key for From in the keyring, signature values refused by the signer,
+// an amount beyond 256 bits, packing failure - and then the message is untouched.
+// wf: the message carries tx data (built by NewTx / decoded); otherwise AsTransaction() is nil and Signer.Hash(nil) panics.
+// ethkey: the keyring key of From is an eth_secp256k1 key, i.e. produces 65-byte [R || S || V] signatures; geth's
+//         decodeSignature PANICS on any other length (e.g. the 64-byte signature of a Cosmos secp256k1 key).
+func (*MsgEthereumTx).Sign
+    requires nonnil: msg != nil
+    requires kinds: unpack_ok(msg.Data) ==> KnownKind(unpack_td(msg.Data))
+    requires wf: unpack_ok(msg.Data)
+    requires ethkey: forall m Bytes :: kr_ok(keyringSigner, addr_bytes(hex_addr(msg.From)), m)
+            ==> len(kr_sig(keyringSigner, addr_bytes(hex_addr(msg.From)), m)) == 65
+    modifies *msg
+    let td0 = old(unpack_td(msg.Data))
+    let td1 = unpack_td(msg.Data)
+    let from = addr_bytes(hex_addr(old(msg.From)))
+    let cid = signer_chainid(ethSigner)
+    ensures nofrom: old(msg.From) == "" ==> result != nil
+    ensures failed: result != nil ==> *msg == old(*msg)
+    ensures frame: msg.From == old(msg.From) && msg.Size_ == old(msg.Size_)
+    ensures data: result == nil ==> unpack_ok(msg.Data) && fresh(msg.Data)
+    ensures kind: result == nil ==> (IsLegacy(td0) ==> IsLegacy(td1)) && (IsAccessList(td0) ==> IsAccessList(td1))
+            && (IsDynamicFee(td0) ==> IsDynamicFee(td1))
+    ensures signed: result == nil ==> exists t0 *EthTx :: EthOfData(t0, td0)
+            && kr_ok(keyringSigner, from, hash_bytes(signer_hash(ethSigner, t0)))
+            && sigvals_ok(ethSigner, t0, kr_sig(keyringSigner, from, hash_bytes(signer_hash(ethSigner, t0))))
+            && (IsLegacy(td0) ==> SignedLegacy(AsLegacy(td1), AsLegacy(td0),
+                    be_int(kr_sig(keyringSigner, from, hash_bytes(signer_hash(ethSigner, t0)))[0:32]),
+                    be_int(kr_sig(keyringSigner, from, hash_bytes(signer_hash(ethSigner, t0)))[32:64]),
+                    sigval_v(ethSigner, t0, kr_sig(keyringSigner, from, hash_bytes(signer_hash(ethSigner, t0))))))
+            && (IsAccessList(td0) ==> SignedAccessList(AsAccessList(td1), AsAccessList(td0),
+                    be_int(kr_sig(keyringSigner, from, hash_bytes(signer_hash(ethSigner, t0)))[0:32]),
+                    be_int(kr_sig(keyringSigner, from, hash_bytes(signer_hash(ethSigner, t0)))[32:64]),
+                    sigval_v(ethSigner, t0, kr_sig(keyringSigner, from, hash_bytes(signer_hash(ethSigner, t0)))), cid))
+            && (IsDynamicFee(td0) ==> SignedDynamicFee(AsDynamicFee(td1), AsDynamicFee(td0),
+                    be_int(kr_sig(keyringSigner, from, hash_bytes(signer_hash(ethSigner, t0)))[0:32]),
+                    be_int(kr_sig(keyringSigner, from, hash_bytes(signer_hash(ethSigner, t0)))[32:64]),
+                    sigval_v(ethSigner, t0, kr_sig(keyringSigner, from, hash_bytes(signer_hash(ethSigner, t0)))), cid))
+    // the recorded hash is the hash of an Ethereum transaction that carries exactly the new stored fields (what ValidateBasic checks)
+    ensures hash: result == nil ==> exists t1 *EthTx :: EthOfData(t1, td1) && msg.Hash == hash_hex(tx_hash(t1))
+@*/
+
+/*@
+// ------------------------------------------------------------------ UnwrapEthereumMsg: the message of a Cosmos tx that stands for a given Ethereum tx
+// message m of the list is an Ethereum message / its object
+specfunc IsEthMsg(m int) bool = typeis(m, "*MsgEthTx")
+specfunc EthMsgOf(m int) *MsgEthTx = unbox(m, "*MsgEthTx")
+
+// Returns the FIRST message of the tx whose Ethereum transaction (AsTransaction()) has the given hash: every message before it
+// is an Ethereum message with another hash. Errors (and a nil message): nil tx, a non-Ethereum message reached before a match,
+// no message with that hash. Side effect (stated, not hidden): the Hash field of every visited message is overwritten with
+// the hash of its transaction; nothing else of any message changes.
+// wf: the messages come from the tx decoder: non-nil pointers whose tx data unpacks (otherwise AsTransaction() is nil and
+//     (*Transaction).Hash panics)
+func UnwrapEthereumMsg
+    let msgs = tx_msgs(*tx)
+    requires wf: tx != nil ==> (forall k int :: 0 <= k && k < len(msgs) && IsEthMsg(msgs[k])
+             ==> EthMsgOf(msgs[k]) != nil && unpack_ok(EthMsgOf(msgs[k]).Data) && KnownKind(unpack_td(EthMsgOf(msgs[k]).Data)))
+    modifies heap(MsgEthTx)
+    ensures niltx: tx == nil ==> result.1 != nil
+    ensures failed: result.1 != nil ==> result.0 == nil
+    ensures content: forall p *MsgEthTx :: p.Data == old(p.Data) && p.From == old(p.From) && p.Size_ == old(p.Size_)
+    ensures hashes: forall p *MsgEthTx :: p.Hash == old(p.Hash)
+             || (exists t *EthTx :: EthOfData(t, unpack_td(p.Data)) && p.Hash == hash_hex(tx_hash(t)))
+    ensures found: result.1 == nil ==> tx != nil && result.0 != nil
+             && (exists k int :: 0 <= k && k < len(msgs) && IsEthMsg(msgs[k]) && EthMsgOf(msgs[k]) == result.0
+                 && (forall j int :: 0 <= j && j < k ==> IsEthMsg(msgs[j])
+                     && (exists t *EthTx :: EthOfData(t, unpack_td(EthMsgOf(msgs[j]).Data)) && tx_hash(t) != ethHash)))
+    ensures hash: result.1 == nil ==> result.0.Hash == hash_hex(ethHash)
+             && (exists t *EthTx :: EthOfData(t, unpack_td(result.0.Data)) && tx_hash(t) == ethHash)
+    ensures nomatch: tx != nil && (forall k int, t *EthTx :: 0 <= k && k < len(msgs) && IsEthMsg(msgs[k])
+                 && EthOfData(t, unpack_td(EthMsgOf(msgs[k]).Data)) ==> tx_hash(t) != ethHash) ==> result.1 != nil
+    loop 1 invariant idx: 0 <= #i && #i <= len(msgs)
+    loop 1 invariant frame: tx == old(tx) && tx != nil && ethHash == old(ethHash)
+    loop 1 invariant content: forall p *MsgEthTx :: p.Data == old(p.Data) && p.From == old(p.From) && p.Size_ == old(p.Size_)
+    loop 1 invariant hashes: forall p *MsgEthTx :: p.Hash == old(p.Hash)
+             || (exists t *EthTx :: EthOfData(t, unpack_td(p.Data)) && p.Hash == hash_hex(tx_hash(t)))
+    loop 1 invariant before: forall j int :: 0 <= j && j < #i ==> IsEthMsg(msgs[j])
+             && (exists t *EthTx :: EthOfData(t, unpack_td(EthMsgOf(msgs[j]).Data)) && tx_hash(t) != ethHash)
+@*/
+
+/*@
+// ------------------------------------------------------------------ NewTx / newMsgEthereumTx: the message built from EvmTxArgs
+alias TxArgs github.com/haqq-network/haqq/x/evm/types.EvmTxArgs
+specfunc ArgTo(a *Address) string = ite(a == nil, "", addr_hex(*a))
+specfunc NoSig(v Bytes, r Bytes, s Bytes) bool = len(v) == 0 && len(r) == 0 && len(s) == 0
+specfunc ArgAl(acc github.com/haqq-network/haqq/x/evm/types.AccessList, al *AccessListE) bool =
+        (al == nil ==> len(acc) == 0) && (al != nil ==> AlMirrors(acc, *al))
+// the stored tx data carries exactly the arguments (absent stays absent), and no signature
+specfunc LegacyOfArgs(p *github.com/haqq-network/haqq/x/evm/types.LegacyTx, a TxArgs) bool = p != nil
+        && p.Nonce == a.Nonce && p.GasLimit == a.GasLimit && p.Data == a.Input && p.To == ArgTo(a.To)
+        && SameOpt(p.Amount, a.Amount) && SameOpt(p.GasPrice, a.GasPrice) && NoSig(p.V, p.R, p.S)
+specfunc AccessListOfArgs(p *github.com/haqq-network/haqq/x/evm/types.AccessListTx, a TxArgs) bool = p != nil
+        && p.Nonce == a.Nonce && p.GasLimit == a.GasLimit && p.Data == a.Input && p.To == ArgTo(a.To)
+        && SameOpt(p.Amount, a.Amount) && SameOpt(p.GasPrice, a.GasPrice) && SameOpt(p.ChainID, a.ChainID)
+        && ArgAl(p.Accesses, a.Accesses) && NoSig(p.V, p.R, p.S)
+specfunc DynamicFeeOfArgs(p *github.com/haqq-network/haqq/x/evm/types.DynamicFeeTx, a TxArgs) bool = p != nil
+        && p.Nonce == a.Nonce && p.GasLimit == a.GasLimit && p.Data == a.Input && p.To == ArgTo(a.To)
+        && SameOpt(p.Amount, a.Amount) && SameOpt(p.GasFeeCap, a.GasFeeCap) && SameOpt(p.GasTipCap, a.GasTipCap)
+        && SameOpt(p.ChainID, a.ChainID) && ArgAl(p.Accesses, a.Accesses) && NoSig(p.V, p.R, p.S)
+
+// The message built from the arguments: dynamic-fee when a fee cap is given, else access-list when an access list is given,
+// else legacy; every field is the argument (the gas price of the arguments is IGNORED for a dynamic-fee tx, fee cap / tip cap
+// for the other two, the chain id for a legacy tx - by construction of the three types); From is empty, Size_ is 0, no signature;
+// Hash is the hash of the Ethereum transaction that carries exactly these fields.
+// Panics (maypanic): PackTxData fails (codec); sdkmath.NewIntFromBigInt panics for an amount beyond 256 bits (bounded).
+// tipcap: sdkmath.NewIntFromBigInt(nil) is the nil Int{}, a state the lib specs do not model (concrete probe: a dynamic-fee
+//         message built without a tip cap is accepted by ValidateBasic, the nil Int counts as 0) - excluded, not verified.
+func newMsgEthereumTx
+    requires nonnil: tx != nil
+    requires tipcap: tx.GasFeeCap != nil ==> tx.GasTipCap != nil
+    requires bounded: (tx.Amount != nil ==> fits256(*tx.Amount)) && (tx.GasPrice != nil ==> fits256(*tx.GasPrice))
+            && (tx.GasFeeCap != nil ==> fits256(*tx.GasFeeCap)) && (tx.GasTipCap != nil ==> fits256(*tx.GasTipCap))
+            && (tx.ChainID != nil ==> fits256(*tx.ChainID))
+    maypanic
+    let td = unpack_td(result.Data)
+    ensures made: result != nil && fresh(result) && unpack_ok(result.Data) && result.From == ""
+    ensures size: result.Size_ == floatlit("0")
+    ensures dynamicfee: tx.GasFeeCap != nil ==> IsDynamicFee(td) && DynamicFeeOfArgs(AsDynamicFee(td), *tx)
+    ensures accesslist: tx.GasFeeCap == nil && tx.Accesses != nil ==> IsAccessList(td) && AccessListOfArgs(AsAccessList(td), *tx)
+    ensures legacy: tx.GasFeeCap == nil && tx.Accesses == nil ==> IsLegacy(td) && LegacyOfArgs(AsLegacy(td), *tx)
+    ensures hash: exists t *EthTx :: EthOfData(t, td) && result.Hash == hash_hex(tx_hash(t))
+    ensures args_kept: *tx == old(*tx)
+func NewTx
+    requires nonnil: tx != nil
+    requires tipcap: tx.GasFeeCap != nil ==> tx.GasTipCap != nil
+    requires bounded: (tx.Amount != nil ==> fits256(*tx.Amount)) && (tx.GasPrice != nil ==> fits256(*tx.GasPrice))
+            && (tx.GasFeeCap != nil ==> fits256(*tx.GasFeeCap)) && (tx.GasTipCap != nil ==> fits256(*tx.GasTipCap))
+            && (tx.ChainID != nil ==> fits256(*tx.ChainID))
+    maypanic
+    let td = unpack_td(result.Data)
+    ensures made: result != nil && fresh(result) && unpack_ok(result.Data) && result.From == ""
+    ensures size: result.Size_ == floatlit("0")
+    ensures dynamicfee: tx.GasFeeCap != nil ==> IsDynamicFee(td) && DynamicFeeOfArgs(AsDynamicFee(td), *tx)
+    ensures accesslist: tx.GasFeeCap == nil && tx.Accesses != nil ==> IsAccessList(td) && AccessListOfArgs(AsAccessList(td), *tx)
+    ensures legacy: tx.GasFeeCap == nil && tx.Accesses == nil ==> IsLegacy(td) && LegacyOfArgs(AsLegacy(td), *tx)
+    ensures hash: exists t *EthTx :: EthOfData(t, td) && result.Hash == hash_hex(tx_hash(t))
+    ensures args_kept: *tx == old(*tx)
+@*/
